@@ -1413,8 +1413,21 @@ class Interp:
                                                       args[0], args[1:], kwargs, star_kw, frame, e)
             return self.method_call(recv, f.attr, args, kwargs, star_kw, frame, e)
         fv = self.eval(f, frame)
-        return self.call_value(fv, args, kwargs, star_kw, frame, e,
-                               name=f.id if isinstance(f, ast.Name) else None)
+        out = self.call_value(fv, args, kwargs, star_kw, frame, e,
+                              name=f.id if isinstance(f, ast.Name) else None)
+        # check_type(x, "x", ProjectClass): from here on x is known to be an instance of that class
+        if isinstance(f, ast.Name) and f.id == "check_type" and len(e.args) >= 3 and isinstance(e.args[0], ast.Name) \
+                and e.args[0].id in frame.env:
+            classes = set()
+            for a in args[2:]:
+                for r in a.ref:
+                    if r[0] == "cls" and str(r[1]).startswith("P:"):
+                        classes.add(r[1])
+            if len(classes) == 1 and len(e.args) == 3:
+                cur = frame.env[e.args[0].id]
+                if not cur.cls:
+                    frame.env[e.args[0].id] = cur.replace(cls=FS(classes))
+        return out
 
     def call_value(self, fv, args, kwargs, star_kw, frame, e, name=None):
         res = None
